@@ -37,7 +37,12 @@ func (r *Router) proxy(w http.ResponseWriter, req *http.Request) {
 		upstreamReq.Header.Set("X-Forwarded-For", req.RemoteAddr)
 	}
 	// call the upstream service
-	resp, err := r.proxyClient.Do(upstreamReq)
+	// (a redirect answer is relayed to the client like any other response instead of
+	// being followed here; the shared client keeps following redirects for Refinery's
+	// own environment look-ups)
+	client := *r.proxyClient
+	client.CheckRedirect = func(*http.Request, []*http.Request) error { return http.ErrUseLastResponse }
+	resp, err := client.Do(upstreamReq)
 	if err != nil {
 		r.handlerReturnWithError(w, ErrUpstreamUnavailable, err)
 		return
